@@ -257,6 +257,11 @@ def rules(P, R, prefix="C20"):
                 attrs += [("<enum>", a) for a in (e.get("attrs") or []) if "serde(" in a]
             R.judge(not attrs, prefix + ".H6", "%s has no serde field/variant attributes%s" % (ty, tag), "", "",
                     "serde attributes %s change the encoding of fields the digest/verify read" % attrs)
+            # derive helper attributes do not survive into HIR on this toolchain; their effect on the derived impls does
+            from .. import serdeshape
+            probs = serdeshape.check(prog, env, ty) if ok else ["not derived"]
+            R.judge(not probs, prefix + ".H6", "%s: derived encoding writes/reads every field in declaration order%s" % (ty, tag), "", "",
+                    "; ".join(probs)[:500])
         # PublicKey uses the paired codec
         for ty in ("crypto::PublicKey",):
             ser = prog.fn("<%s as serde_core::ser::Serialize>::serialize" % ty) or prog.fn("<%s as serde::ser::Serialize>::serialize" % ty)
